@@ -348,14 +348,19 @@ def retry_cases(tier):
 
 def run(ctx):
     ctx.bounds = {"step_tuple_len": 3 if ctx.quick else 4, "container_tuple_len": 4 if ctx.quick else 6,
-                  "retry_attempts": 2 if ctx.quick else 3}
+                  "retry_attempts": 2 if ctx.quick else 3,
+                  "real_runs": "C01 enumeration" + (" restricted to shapes with <= 3 step positions" if ctx.quick else "")}
     ctx.sweep(check_algebra, [0], name="status algebra + doc table")
     odd = ctx.sweep(check_tuple, tuple_cases(ctx.tier), chunk=512, name="compute_status on forced child tuples",
                     keep=True)
     ctx.note("non_run_ordered_deviations", {"count": len(odd), "samples": [list(map(str, o)) for o in odd[:10]],
                                             "meaning": "child sequences no single run can produce whose roll-up is "
                                                        "outside the accept-set; reported, not failed (DESIGN C03.2)"})
-    ctx.sweep(run_case, runcases.step_cases(ctx.tier), chunk=48, name="real runs: outcomes x configs")
-    ctx.sweep(run_case, runcases.fault_cases(ctx.tier), chunk=48, name="real runs: hook/cleanup faults")
+    # quick: the C01 enumeration restricted to shapes with <= 3 step positions (faults: <= 3); thorough: all of it
+    small = (lambda c, n: P.size(c[0][0]) <= n) if ctx.quick else (lambda c, n: True)
+    ctx.sweep(run_case, (c for c in runcases.step_cases(ctx.tier) if small(c, 3)), chunk=48,
+              name="real runs: outcomes x configs")
+    ctx.sweep(run_case, (c for c in runcases.fault_cases(ctx.tier) if small(c, 3)), chunk=48,
+              name="real runs: hook/cleanup faults")
     ctx.sweep(retry_case, retry_cases(ctx.tier), chunk=16, name="auto-retry / re-run histories")
     ctx.guard(len(ctx.outcomes) > 30, "at least 30 distinct outcome classes")
